@@ -293,31 +293,36 @@ def run(ctx, rep):
     sp_ = "<%s as %sconfig::filter::FilterOpt>::skip_payload" % (CFG, AP)
     tb = ev.tb(sp_)
     if tb:
-        # arms: (Some(Rdh),_,_) → true ; (_, Some(All|Sanity(arg)),_) if arg.target.is_none() → true ; _ → false
-        m = next((n for i, n in tb.walk() if n["k"] == "Match"), None)
-        arms = [tb.arms[a] for a in m["arms"]] if m else []
-        def lit_bool(e):
-            for _, n in tb.walk(e):
-                if n["k"] == "Lit" and "bool" in n:
-                    return n["bool"]
-            return None
-        shape = []
-        for arm in arms:
-            pat = arm["pat"]
-            comps = []
-            if pat["k"] == "Leaf" or pat["k"] == "Or":
-                comps = _pat_summary(pat)
-            shape.append((_pat_summary(pat), arm.get("guard") is not None, lit_bool(arm["body"])))
-        exp_last = shape and shape[-1][2] is False and shape[-1][1] is False
-        trues = [s for s in shape if s[2] is True]
-        ok = exp_last and len(shape) == 3 and len(trues) == 2 and "Rdh" in str(shape[0][0]) and shape[0][1] is False and shape[1][1] is True and "All" in str(shape[1][0]) and "Sanity" in str(shape[1][0])
-        # guard is arg.target.is_none()
-        if ok:
-            gi = arms[1]["guard"]
-            gs = [n for _, n in tb.walk(gi) if n["k"] == "Call"]
-            ok = any((n.get("fn") or "").endswith("::is_none") for n in gs) and any(x.get("name") == "target" for _, x in tb.walk(gi) if x["k"] == "Field")
-        rep.check(ok, "R8.4", "R8.4|skip_payload_table", "skip_payload ⇔ view rdh ∨ (check without target): false when neither check nor view is set", sp_,
-                  "skip_payload decision table changed: %s" % (shape,))
+        # decided as a truth table: every view (none / each ViewCommands variant) × check (none / All / Sanity, with and
+        # without a target): skip_payload ⇔ view rdh ∨ (check without target)
+        from ..thir import Agg as _Agg, Sym as _Sym, Unsupported as _Uns
+        VC = next((a_ for a_ in sorted(f.adts) if a_.endswith("::ViewCommands")), None)
+        CCm = next((a_ for a_ in sorted(f.adts) if a_.endswith("::CheckCommands")), None)
+        CMA = next((a_ for a_ in sorted(f.adts) if a_.endswith("::CheckModeArgs")), "CheckModeArgs")
+        some = lambda x: _Agg("core::option::Option", "Some", {"0": x})
+        none = _Agg("core::option::Option", "None", {})
+        views = [("none", none)] + [(v_["name"], some(_Agg(VC, v_["name"], {}))) for v_ in (f.adts.get(VC) or {}).get("variants", [])]
+        checks = [("none", none, None)]
+        for k_ in ("All", "Sanity"):
+            for tgt in (False, True):
+                checks.append(("%s%s" % (k_, "+target" if tgt else ""), some(_Agg(CCm, k_, {"0": _Agg(CMA, "CheckModeArgs", {"target": some(_Sym("SYS")) if tgt else none})})), tgt))
+        wrong = []
+        for vn, vv in views:
+            for cn, cv, tgt in checks:
+                ev.call_hooks = [(lambda fn_, r_: (r_ or fn_).endswith("::view") and "Opt" in (r_ or fn_), lambda n, a, vv=vv: vv),
+                                 (lambda fn_, r_: (r_ or fn_).endswith("::check") and "Opt" in (r_ or fn_), lambda n, a, cv=cv: cv)]
+                try:
+                    r_ = ev.as_cond(ev.call_fn(sp_, [_Sym("CFG")]))
+                    got = {"true": True, "false": False}.get(r_.op, ckey(r_)[:60])
+                except _Uns as e:
+                    got = "unevaluable: %s" % e
+                finally:
+                    ev.call_hooks = []
+                want = vn == "Rdh" or (cn != "none" and not tgt)
+                if got != want:
+                    wrong.append("view=%s check=%s → %s" % (vn, cn, got))
+        rep.check(not wrong and len(views) >= 3, "R8.4", "R8.4|skip_payload_table", "skip_payload ⇔ view rdh ∨ (check without target): false when neither check nor view is set (%d combinations)" % (len(views) * len(checks)), sp_,
+                  "skip_payload decision table changed: %s" % wrong[:5])
     else:
         rep.missing("R8.4", sp_)
     # writer selection in process(), decided for each of the 24 combinations of (check, view, filter, output mode): the
